@@ -333,6 +333,9 @@ func (r *RolloutReconciler) handleNormalRolling(c *RolloutContext) error {
 	}
 	// in case user modifies it with inappropriate value
 	util.CheckNextBatchIndexWithCorrect(c.Rollout)
+	// the release managers read the step cursor from NewStatus, which was copied from the rollout
+	// status before the correction above: carry the corrected nextStepIndex over
+	c.NewStatus.GetSubStatus().NextStepIndex = c.Rollout.Status.GetSubStatus().NextStepIndex
 
 	releaseManager, err := r.getReleaseManager(c.Rollout)
 	if err != nil {
